@@ -17,6 +17,7 @@
   the full statement false on the pinned tree (see DESIGN.md section 6).
 -/
 import BVM.Proofs.RtRec
+import BVM.Proofs.CfgOKb
 namespace BVM
 
 theorem calls_recorded_or_discarded (cfg : Cfg) (d : DST) (ops : List Op) (bytes : Nat) (p : Plat)
@@ -24,6 +25,19 @@ theorem calls_recorded_or_discarded (cfg : Cfg) (d : DST) (ops : List Op) (bytes
     nCall (runOps cfg d ops (rtInit bytes p)).log =
       nRec (runOps cfg d ops (rtInit bytes p)).log + nDisc (runOps cfg d ops (rtInit bytes p)).log :=
   runOps_bal cfg d ops (rtInit bytes p) (fun _ => rfl) hn
+
+/-- the same without the "run did not halt" hypothesis, for platforms whose packet buffers all have one size: no
+    history halts (`no_store_outside_the_buffer`, Props/C02.lean), so every tracing call that passed its enable test is
+    exactly one record or exactly one discard, along every history -/
+theorem calls_recorded_or_discarded_always (cfg : Cfg) (d : DST) (L A : Nat) (hcfg : CfgOK A cfg d)
+    (hsmall : 8 * L + A ≤ 2 ^ 32) (p : Plat) (hsb : ∀ x ∈ p.setBufs, x.2 = L)
+    (hhdr : ∀ args ∈ openArgsOf p.openArgs, hdrEndN cfg d args ≤ 8 * L)
+    (ops : List Op) (hops : OpsSmall d L A ops) :
+    nCall (runOps cfg d ops (rtInit L p)).log =
+      nRec (runOps cfg d ops (rtInit L p)).log + nDisc (runOps cfg d ops (rtInit L p)).log :=
+  calls_recorded_or_discarded cfg d ops L p
+    (runOps_pinv cfg d L A p.openArgs hcfg hsmall hhdr ops hops (rtInit L p)
+      (rtInit_pinv d L A hcfg.Apos hsmall p hsb)).nh
 
 theorem discarded_counter_exact (cfg : Cfg) (d : DST) (ops : List Op) (bytes : Nat) (p : Plat) :
     (runOps cfg d ops (rtInit bytes p)).c.eventsDiscarded =
@@ -60,6 +74,7 @@ example : exRun3.halted = false ∧ nCall exRun3.log = 4 ∧ nRec exRun3.log = 3
     exRun3.c.eventsDiscarded = 1 := by decide +kernel
 
 #print axioms calls_recorded_or_discarded
+#print axioms calls_recorded_or_discarded_always
 #print axioms discarded_counter_exact
 #print axioms discard_only_if
 #print axioms one_call_one_outcome
